@@ -84,7 +84,20 @@ var c19Base = time.Unix(1_700_000_000, 0)
 
 func newC19World(dir string) *c19World {
 	l := &c19Loader{dir: dir, loaded: map[string][2]string{}, stamp: map[string]time.Time{}}
-	return &c19World{dir: dir, l: l, w: &DirectoryWatcher{dir: dir, timestamps: map[string]time.Time{}, loader: l}}
+	// the real constructor (a struct literal would miss fields a refactor adds); dir is empty, so its
+	// initial scan loads nothing; Stop ends the fsnotify goroutines: from here on only the harness calls scan()
+	dw, err := newDirectoryWatcher(dir, l)
+	if err == nil {
+		err = dw.WaitUntilReady()
+	}
+	if err != nil {
+		panic("TOOL: cannot construct DirectoryWatcher: " + err.Error())
+	}
+	dw.Stop()
+	if len(l.loaded) != 0 {
+		panic("TOOL: watcher on an empty directory loaded something")
+	}
+	return &c19World{dir: dir, l: l, w: dw}
 }
 
 func (w *c19World) write(name string) {
